@@ -8,7 +8,9 @@ can add services to or destroy an object or service; destroying an object destro
 and a disconnect destroys everything the connection owned. Queries about a service succeed exactly
 while it is live.
 
-What is proved here (model M4): the registry maps are keyed by uuid resp. (object uuid, service uuid),
+What is proved here (model M4): `registry_unique_and_fresh_all_histories` — an inductive invariant over all
+event histories (unique keys in all four registry maps, equal sizes of the cookie and uuid views, the next
+cookie unused anywhere). The registry maps are keyed by uuid resp. (object uuid, service uuid),
 so "at most one live entity per key" holds by construction in model and code alike; the content is in
 the handlers' decisions, proved for every broker state:
 * `create_object`: duplicate iff the uuid is live, else registered for the sender under a cookie taken
@@ -22,8 +24,25 @@ registry cross-reference invariant (cookie map ↔ uuid map ↔ per-object / per
 the correspondence runs over a pool of 4 uuids (collisions, re-creation, foreign access, disconnects).
 -/
 import Aldrin.Lemmas.Broker.Events
+import Aldrin.Lemmas.Broker.Gauge5
 
 namespace Aldrin.Broker
+
+/-- for ALL histories: at most one live object per uuid and at most one live service per (object uuid,
+service uuid), cookies index them uniquely, the two views of each registry have the same size, and the
+cookie the next creation will hand out is not in use in any cookie-indexed map -/
+theorem registry_unique_and_fresh_all_histories (es : List Event) (b : Broker) (w : Work) (outs : List (List Out))
+    (h : run {} {} es = .ok (b, w, outs)) :
+    AL.NodupKeys b.objs ∧ AL.NodupKeys b.objUuids ∧ AL.NodupKeys b.svcs ∧ AL.NodupKeys b.svcUuids ∧
+    b.objUuids.length = b.objs.length ∧ b.svcUuids.length = b.svcs.length ∧
+    AL.find? b.nextCookie b.objUuids = none ∧ AL.find? b.nextCookie b.svcUuids = none ∧
+    AL.find? b.nextCookie b.channels = none ∧ AL.find? b.nextCookie b.listeners = none := by
+  obtain ⟨_, g2, g3, g4, g5⟩ := run_G5 es _ _ _ _ _ G5_init h
+  obtain ⟨c1, c2⟩ := run_G2 es _ _ _ _ _ G2_init h
+  refine ⟨g3.nodup, g2.nodup, g5.nodup, g4.nodup, ?_, ?_, KeysBelow_fresh g2.below, KeysBelow_fresh g4.below,
+    KeysBelow_fresh c1.below, KeysBelow_fresh c2.below⟩
+  · have a := g2.size; have b' := g3.size; simp at a b'; omega
+  · have a := g4.size; have b' := g5.size; simp at a b'; omega
 
 theorem create_object_duplicate {s : St} {id serial uuid} {c : Conn} {o : Obj}
     (hc : AL.find? id s.b.conns = some c) (ho : AL.find? uuid s.b.objs = some o) :
